@@ -217,6 +217,90 @@ def nolib_cases(root):
     return cases
 
 
+def stale_stats_cases(root, tier):
+    """A library that another tool once ran ANALYZE on and that has grown a lot since through that other tool (stale planner
+    statistics), then a purely observing session: load, listings and every kind of lookup, release.  The files must not
+    change.  Phase 1 (the library's own code) creates a small library; phase 2 (Python's sqlite3, the foreign writer)
+    analyses it and imports crates and tracks; phase 3 (returned here) observes."""
+    import sqlite3
+    grow = 1500 if tier == "quick" else 6000
+    setup = []
+    dirs = {}
+    for i, schema in enumerate(ALL_SCHEMAS):
+        d = os.path.join(root, "stale%d" % i)
+        os.makedirs(d, exist_ok=True)
+        dirs[schema] = d
+        v2 = is_v2(schema)
+        ops = [{"op": "lib_create" if v2 else "create", "schema": schema, "dir": d}]
+        for j in range(3):
+            ops.append({"op": "create_track", "as": "t%d" % j, "snap": {"relative_path": GH.GS.hx("st/first %d.mp3" % j), "title": GH.GS.hx("T%d" % j)}})
+            ops.append({"op": "create_root_crate", "name": GH.GS.hx("first %d" % j), "as": "c%d" % j})
+            ops.append({"op": "add_track", "c": "c%d" % j, "t": "t%d" % j})
+        ops.append({"op": "create_sub_crate", "c": "c0", "name": GH.GS.hx("sub"), "as": "c9"})
+        ops.append({"op": "release_all"})
+        setup.append({"id": "stalesetup%d" % i, "schema": schema, "ops": ops, "no_tz": True})
+    done = {}
+    runner.run_cases(setup, cfg="plain", on_result=lambda r: done.__setitem__(r.case["schema"], not r.crash and not any("exc" in e for e in r.events)))
+    cases = []
+    for i, schema in enumerate(ALL_SCHEMAS):
+        d = dirs[schema]
+        v2 = is_v2(schema)
+        if not done.get(schema):
+            continue
+        con = sqlite3.connect(os.path.join(d, "Database2", "m.db") if v2 else os.path.join(d, "m.db"))
+        try:
+            con.execute("ANALYZE")
+            con.commit()
+            if v2:
+                for j in range(grow):
+                    con.execute("INSERT INTO Playlist (title, parentListId, isPersisted, nextListId, lastEditTime, isExplicitlyExported) "
+                                "VALUES (?, 0, 1, 0, '2024-05-01 12:00:00', 1)", ("Imported %d" % j,))
+            else:
+                # the foreign writer copies the first crate's rows under new ids (all redundant encodings kept consistent)
+                tables = {r[0] for r in con.execute("SELECT name FROM sqlite_master WHERE type = 'table'")}
+                if "Crate" in tables:
+                    base = con.execute("SELECT MAX(id) FROM Crate").fetchone()[0]
+                    for j in range(grow):
+                        cid = base + 1 + j
+                        con.execute("INSERT INTO Crate (id, title, path) VALUES (?, ?, ?)", (cid, "Imported %d" % j, "Imported %d;" % j))
+                        con.execute("INSERT INTO CrateParentList (crateOriginId, crateParentId) VALUES (?, ?)", (cid, cid))
+                # (from 1.9.1 the crates live in a List table behind views; there the statistics are left without growth)
+            con.commit()
+        except sqlite3.Error:
+            con.close()
+            continue
+        con.close()
+        ops = [{"op": "file_digest", "dir": d}, {"op": "set_budget", "vdbe": 4 * 10 ** 9},
+               {"op": "load_probe", "dir": d, "lookups": True, "lookups_limit": 60}, {"op": "file_digest", "dir": d},
+               {"op": "load_probe", "dir": d, "lookups": True, "lookups_limit": 60}, {"op": "file_digest", "dir": d}]
+        cases.append({"id": "stale%d" % i, "schema": schema, "_stale": True, "_disk": True, "dir": d, "_marks": [], "ops": ops, "no_tz": True})
+    return cases
+
+
+def judge_stale(ctx, res):
+    schema = res.case["schema"]
+    fam = family(schema)
+    ev = res.events
+    ctx.count()
+    ctx.bump("stale_statistics_cases")
+    wit = {"schema": schema, "ops": res.case["ops"], "note": "a small library made through the API, then ANALYZEd and grown by a foreign "
+           "writer (plain SQL), then only observed"}
+    if res.crash or len(ev) < 6:
+        ctx.violation(f"op-did-not-complete {fam} stale-statistics", f"{schema}: the stale-statistics case did not complete", wit)
+        return
+    f0, p1, f1, p2, f2 = ev[0], ev[2], ev[3], ev[4], ev[5]
+    for p in (p1, p2):
+        if "exc" in p:
+            ctx.violation(f"observer-throws {fam} stale-statistics", f"{schema}: loading and looking things up in a library with planner statistics throws {p['exc']['type']}", wit)
+            return
+    ctx.bump("stale_statistics_lookups", p1["ret"].get("lookups", 0))
+    from .c10 import diff_paths
+    if f0.get("ret") != f1.get("ret") or f1.get("ret") != f2.get("ret"):
+        ctx.violation(f"files-changed-by-observing-session {fam} stale-statistics",
+                      f"{schema}: a session that only loaded the library and looked things up changed its files: "
+                      f"{(diff_paths(f0.get('ret'), f1.get('ret')) or diff_paths(f1.get('ret'), f2.get('ret')))[:3]}", wit)
+
+
 def judge_nolib(ctx, res):
     name = res.case["_nolib"]
     ev = res.events
@@ -261,7 +345,17 @@ def run(ctx):
         ctx.assumptions += ["the verdict is total_changes + table digests + file digests + repeatability; the count of "
                             "non-read-only statements stepped during observation is logged only (an UPDATE that matches nothing modifies nothing)"]
         nol = nolib_cases(root)
-        runner.run_cases(cases + nol, cfg="plain", on_result=lambda r: judge_nolib(ctx, r) if r.case.get("_nolib") else judge_case(ctx, r))
+        stale = stale_stats_cases(root, ctx.tier)
+
+        def on(r):
+            if r.case.get("_nolib"):
+                judge_nolib(ctx, r)
+            elif r.case.get("_stale"):
+                judge_stale(ctx, r)
+            else:
+                judge_case(ctx, r)
+
+        runner.run_cases(cases + nol + stale, cfg="plain", on_result=on)
     finally:
         shutil.rmtree(root, ignore_errors=True)
     seen = set(ctx.extra.get("cases_by_schema", {})) - {"-"}
